@@ -249,7 +249,8 @@ def make_actions(name, parts, host, depth_full, sample, seed):
         for b in parts:
             acts.append(dict(ev="um", parts=[b, b]))
         for x, y in c["um_extra"]:
-            if (x is None or x in parts) and (y is None or y in parts):
+            # (a state in which the code lost a mortar side is judged as it is - shape clause - and not extended this way)
+            if (x is None or x in parts) and (y is None or y in parts) and len(o["mort"]) >= 2:
                 acts.append(dict(ev="um", parts=[x or o["mort"][0], y or o["mort"][1]]))
         for b in parts:
             acts.append(dict(ev="us", part=b))
